@@ -113,13 +113,16 @@ def update_weights_flow():
             ob(f"{tag}: shrinkage is {pname} with threshold alpha * optimiser_.learning_rate" + (" and M" if mlp else ""), ok_p,
                {"args": [fx.show(x) for x in pc[0][3]] if pc else None})
             cp = [e for e in cs if e[2] == "np.copyto"]
+            # `np.copyto(W, new)`, `W[...] = new` and `W[:] = new` are the same in-place copy
+            whole = (fx.C(Ellipsis), ("slice", fx.C(None), fx.C(None), fx.C(None)))
+            inplace = [(e[1], e[2][2]) for e in st.events if e[0] == "mutate" and isinstance(e[2], tuple) and e[2][0] == "setitem" and e[2][1] in whole]
             if pc and ok_p:
                 res = ("callres", pc[0][1], pname, pc[0][3], pc[0][4])
                 if mlp:
                     want_cp = [(("attr", SELF, "W_skip_"), ("item", res, fx.C(0))), (("attr", SELF, "W1_"), ("item", res, fx.C(1)))]
                 else:
                     want_cp = [(("attr", SELF, "W_"), res)]
-                ok_c = [e[3] for e in cp] == want_cp
+                ok_c = ([e[3] for e in cp] + inplace) == want_cp
             else:
                 ok_c = False
             ob(f"{tag}: results copied in place into the arrays the optimiser owns", ok_c, {"copyto": [[fx.show(x) for x in e[3]] for e in cp]})
